@@ -31,7 +31,13 @@ impl CountMinSketch {
         let timestamp = SystemTime::now()
             .duration_since(UNIX_EPOCH)
             .expect("system time before Unix epoch");
+        #[cfg_attr(feature = "verif-hooks", allow(unused_mut))]
         let mut source = StdRng::seed_from_u64(timestamp.as_nanos() as u64);
+        #[cfg(feature = "verif-hooks")]
+        let mut source = match crate::lfu::verif_pinned_sketch_seed() {
+            Some(seed) => StdRng::seed_from_u64(seed),
+            None => source,
+        };
 
         let seeds: Vec<u64> = {
             (0..DEPTH).map(|_| {
@@ -80,6 +86,17 @@ impl CountMinSketch {
     /// `clear` zeroes all counters.
     pub(crate) fn clear(&mut self) {
         self.rows.iter_mut().for_each(|row| row.clear())
+    }
+
+    #[cfg(feature = "verif-hooks")]
+    pub(crate) fn verif_dump(&self, out: &mut Vec<u8>) {
+        out.extend_from_slice(&self.mask.to_le_bytes());
+        for s in self.seeds.iter() {
+            out.extend_from_slice(&s.to_le_bytes());
+        }
+        for r in self.rows.iter() {
+            out.extend_from_slice(r.verif_bytes());
+        }
     }
 }
 
